@@ -121,8 +121,10 @@ def _cphase_symbols_to_sqrt_iswap(
     theta_prime = (sympy.pi - sign * sympy.pi) + sign * theta
 
     # theta_prime is in [0, pi]; the clamp keeps rounding at pi from leaving asin's domain.
-    phi = sympy.asin(sympy.Min(1, np.sqrt(2) * sympy.sin(theta_prime / 4)))
-    xi = sympy.atan2(sympy.sin(phi), np.sqrt(2) * sympy.cos(phi))
+    sin_phi = sympy.Min(1, np.sqrt(2) * sympy.sin(theta_prime / 4))
+    cos_phi = sympy.sqrt(sympy.Max(0, 1 - sin_phi**2))
+    phi = sympy.asin(sin_phi)
+    xi = sympy.atan2(sin_phi, np.sqrt(2) * cos_phi)
 
     yield ops.rz(sign * 0.5 * theta_prime).on(a)
     yield ops.rz(sign * 0.5 * theta_prime).on(b)
